@@ -2,7 +2,7 @@
 //!
 //! Spaces: every entry of POKER_DECK, Two::{AA, AK, AKs, AKo, AQs, AQo}, Four::OMAHA_PERMUTATIONS,
 //! Six/Seven::FIVE_CARD_PERMUTATIONS against oracle-generated combination sets; `Deck::get(i)` for every
-//! i in 0..2^24 (thorough: 0..2^32) and every 2^k - 1, 2^k, 2^k + 1 up to usize::MAX.
+//! i in 0..2^28 (thorough: 0..2^32) and every 2^k - 1, 2^k, 2^k + 1 up to usize::MAX.
 use super::{confirm, sample_json, Ctx};
 use crate::engine::enumerate::{combos, par_parts};
 use crate::engine::evidence::{Acc, Case, Report, Verdict};
@@ -148,7 +148,7 @@ pub fn run(ctx: &Ctx, rep: &mut Report) {
     let t0 = Instant::now();
     let kind = monitor::kind_id("deck.get");
     let d = deck();
-    let top: u64 = if ctx.tier.thorough() { 1 << 32 } else { 1 << 24 };
+    let top: u64 = if ctx.tier.thorough() { 1 << 32 } else { 1 << 28 };
     let accs = par_parts(256, |p| {
         let mut acc = Acc::new(1);
         let lo = top / 256 * p as u64;
@@ -187,7 +187,7 @@ pub fn run(ctx: &Ctx, rep: &mut Report) {
             acc.violate(v);
         }
     }
-    rep.add_space(&format!("Deck::get(i) for every i < 2^{} and every 2^k - 1, 2^k, 2^k + 1 up to usize::MAX", if ctx.tier.thorough() { 32 } else { 24 }), &acc, t0, "in range => the deck card, at or past the end => blank");
+    rep.add_space(&format!("Deck::get(i) for every i < 2^{} and every 2^k - 1, 2^k, 2^k + 1 up to usize::MAX", if ctx.tier.thorough() { 32 } else { 28 }), &acc, t0, "in range => the deck card, at or past the end => blank");
     rep.rule = "distinct table entries and distinct indices; non-trivial = every table entry, and the indices around the deck's end and the powers of two".into();
     rep.bound = "tables complete; Deck::get on a complete low range plus all power-of-two neighbourhoods".into();
 }
